@@ -40,6 +40,10 @@ CONC_EXPECT = [
     ("tryrd_with_writer_queued", "0", "uv_rwlock_tryrdlock returned %s with a reader inside and a writer only queued in uv_rwlock_wrlock (no writer holds the lock)"),
     ("rdlock_joins_reader_with_writer_queued", "1,1", "uv_rwlock_rdlock did not admit a second reader while the first is inside and a writer is queued (joined,first still inside = %s)"),
     ("queued_writer_got_in_alone", "1", "the queued writer entered while readers were inside / never entered (%s)"),
+    ("plain_trylock_same_thread", "-16", "uv_mutex_trylock on a plain uv_mutex_init mutex already held by the calling thread returned %s (it nested: the mutex is recursive)"),
+    ("plain_trylock_other_thread", "-16,0", "uv_mutex_trylock from another thread on a plain mutex (held, after one unlock) returned %s"),
+    ("recursive_trylock_same_thread", "0,0", "uv_mutex_init_recursive mutex: trylock by the owner / after full release returned %s"),
+    ("recursive_trylock_other_thread", "-16,-16,0", "recursive mutex locked 3x: trylock from another thread (held, after 2 unlocks, after 3) returned %s"),
     ("mutex_overlaps", "0", "%s overlapping critical sections under uv_mutex_lock/trylock"),
     ("trylock_held", "-16", "uv_mutex_trylock on a held mutex returned %s"),
     ("recursive_nests", "0,0", "recursive mutex does not nest / is not released: %s"),
@@ -437,8 +441,10 @@ def main():
     if len(pc) != 34:
         chk.violation("pass-through table has %d entries, 34 expected" % len(pc), {"kind": "correspondence"}, found_input=False)
     # the same table against the library built WITHOUT NDEBUG (uv_mutex_init asks for an error-checking mutex)
+    hconcd = None
     try:
         libdbg = vf.build_libuv(chk.scratch, "debug")
+        hconcd = vf.cc_harness(chk.scratch, "c20_conc_dbg", ["c20_conc.c"], lib=libdbg, flavour="debug")
         hpassd = vf.cc_harness(chk.scratch, "c20_pass_dbg", ["c20_pass.c"], lib=libdbg, flavour="debug", wraps=WRAPS_P)
         macro, _, _ = vf.run_lines([hpassd], ["errorcheck_macro"])
         chk.cov["PTHREAD_MUTEX_ERRORCHECK_is_macro"] = macro[:1]
@@ -452,26 +458,29 @@ def main():
     import concurrent.futures, subprocess
     runs = 12 if thorough else 4
 
-    def conc_once(_):
+    def conc_once(exe):
         try:
-            r = subprocess.run([hconc], stdout=subprocess.PIPE, stderr=subprocess.STDOUT, text=True, timeout=120)
+            r = subprocess.run([exe], stdout=subprocess.PIPE, stderr=subprocess.STDOUT, text=True, timeout=120)
             return r.stdout.strip() if r.returncode == 0 else "crashed rc=%d %s" % (r.returncode, r.stdout[-200:])
         except subprocess.TimeoutExpired:
             return "timeout"
+    # both flavours of the library: NDEBUG (what ships) and assert-enabled
+    jobs = [("NDEBUG build", hconc)] * runs + ([("build without NDEBUG", hconcd)] * runs if hconcd else [])
     with concurrent.futures.ThreadPoolExecutor(4) as ex:
-        outs = list(ex.map(conc_once, range(runs)))
+        outs = list(ex.map(conc_once, [e for _, e in jobs]))
     reported = set()
-    for o in outs:
+    for (flav, _), o in zip(jobs, outs):
         kv = dict(x.split("=", 1) for x in o.split() if "=" in x)
         chk.count("conc", o)
         for key, want, msg in CONC_EXPECT:
             got = kv.get(key, "missing (%s)" % o[:80])
-            if got != want and key not in reported:
-                reported.add(key)
-                chk.violation("real-concurrency monitor: " + msg % got,
+            if got != want and (key, flav) not in reported:
+                reported.add((key, flav))
+                chk.violation("real-concurrency monitor (%s): " % flav + msg % got,
                               {"kind": "monitor", "obligation": "real-concurrency monitor (no model)", "key": key,
+                               "library": flav,
                                "expected": want, "got": got, "line": o}, found_input=True)
-    chk.corr("real-concurrency monitor (monitor-only, no model)", runs)
+    chk.corr("real-concurrency monitor (monitor-only, no model)", len(jobs))
     chk.sample({"concurrency_monitor": outs[0] if outs else None})
 
     # (a) return-code maps
